@@ -237,11 +237,6 @@ def process_variable(var_collector: Collector, node: NodeValue) -> VariableRespo
     if cache_id is not None:
         return VariableResponse(VariableId(cache_id, node.name, modifiers, node.original_name), process_children=False)
 
-    # if we do not have a cache_id - then create one
-    var_id = var_collector.new_var_id(identity_hash_id)
-
-    # crete the variable id to use
-    variable_id = VariableId(var_id, node.name, modifiers, node.original_name)
     # extract variable type
     variable_type = type(node.value)
     # create a string value of the variable
@@ -249,11 +244,35 @@ def process_variable(var_collector: Collector, node: NodeValue) -> VariableRespo
                                                     var_collector.max_string_length)
 
     # create a variable for the lookup
-    variable = Variable(str(variable_type.__name__), variable_value_str, identity_hash_id, [], truncated)
+    variable = Variable(type_name(variable_type), variable_value_str, identity_hash_id, [], truncated)
+
+    # if we do not have a cache_id - then create one. Only now that nothing of the application's is called any more:
+    # an id that is handed out must have its entry, or everything that refers to the value later refers to nothing
+    var_id = var_collector.new_var_id(identity_hash_id)
+    # crete the variable id to use
+    variable_id = VariableId(var_id, node.name, modifiers, node.original_name)
     # add to lookup
     var_collector.append_variable(var_id, variable)
     # return result - and expand children
     return VariableResponse(variable_id, process_children=True)
+
+
+def type_name(variable_type) -> str:
+    """
+    Get the name of a type, as text.
+
+    The name of a class is what its metaclass says it is: it can be missing, be no text, or raise.
+
+    :param variable_type: the type
+    :return: the name of the type
+    """
+    try:
+        name = type.__getattribute__(variable_type, '__name__')
+        if type(name) is str:
+            return name
+        return wire_safe(str(name))
+    except BaseException:
+        return 'object'
 
 
 def truncate_string(string, max_length):
@@ -264,6 +283,9 @@ def truncate_string(string, max_length):
     :param max_length: the length to truncated to
     :return: a tuple of the new string, and if it was truncated
     """
+    if type(string) is not str:
+        # what a __str__ returns can be a subclass of str, with an idea of its own of slices and lengths
+        string = str.__str__(string)
     return string[:max_length], len(string) > max_length
 
 
@@ -338,7 +360,7 @@ def find_children_for_parent(var_collector: Collector, parent_node: ParentNode, 
     :return: list of child nodes
     """
     if variable_type is dict:
-        return process_dict_breadth_first(parent_node, variable_type.__name__, value)
+        return process_dict_breadth_first(parent_node, type_name(variable_type), value)
     elif variable_type in LIST_LIKE_CLASSES:
         return process_list_breadth_first(var_collector, parent_node, value)
     elif issubclass(variable_type, Exception):
@@ -351,7 +373,7 @@ def find_children_for_parent(var_collector: Collector, parent_node: ParentNode, 
             return process_list_breadth_first(var_collector, parent_node, args)
     attributes = instance_attributes(value)
     if attributes is not None:
-        return process_dict_breadth_first(parent_node, variable_type.__name__, attributes, correct_names)
+        return process_dict_breadth_first(parent_node, type_name(variable_type), attributes, correct_names)
     logging.debug("Unknown type processed %s", variable_type)
     return []
 
@@ -382,14 +404,14 @@ def process_dict_breadth_first(parent_node, type_name, value, func=lambda x, y: 
     :param (str) type_name: the name of the type we are processing
     :param (any) value: the list value to process
     :param (Callable) func: an optional function to preprocess values
-
     :param func:
     :return (list): the collected child nodes
     """
-    # we wrap the keys() in a call to list to prevent concurrent changes
-    return [Node(value=NodeValue(func(type_name, name), value[key], name), parent=parent_node) for key, name in
-            [(key, key_to_name(key)) for key in list(value.keys())] if
-            key in value]
+    # we wrap the items() in a call to list to prevent concurrent changes. The items, not the keys and a second look up
+    # of each: that would ask the key for its hash again, which can have changed since it was put in (the entry would
+    # be missing without a word) or raise
+    return [Node(value=NodeValue(func(type_name, name), item, name), parent=parent_node) for name, item in
+            [(key_to_name(key), item) for key, item in list(value.items())]]
 
 
 def key_to_name(key) -> str:
@@ -399,7 +421,8 @@ def key_to_name(key) -> str:
     :param key: the key, which can be any hashable value
     :return: the key if it is a string, else its string form
     """
-    if isinstance(key, str):
+    # the type, not isinstance: that asks the key for its __class__, which can raise or claim to be str (a Mock)
+    if type(key) is str:
         return wire_safe(key)
     return safe_str(key)
 
